@@ -29,7 +29,10 @@ mut("m17-revert-d9-final-line-at-the-limit", "C17", "a final unterminated line o
 			}
 			return len(data), data, nil""", """			return len(data), data, nil"""))
 mut("m17-revert-d2-stl-single-read", "C17", "an STL block delivered in two reads",
-    ("stl.go", "if n, err = io.ReadFull(i, o); err != nil {", "if n, err = i.Read(o); err != nil || n != len(o) {\n\t\tif err == nil {\n\t\t\terr = io.ErrUnexpectedEOF\n\t\t}"), also=["C18"])
+    ("stl.go", "	for n < c && err == nil {", "	for first := true; first; first = false {"),
+    ("stl.go", "	if err != nil {\n		if err == io.EOF {\n			// Nothing left to read", "	if err == nil && n < c {\n		err = io.EOF\n	}\n	if err != nil {\n		if err == io.EOF {\n			// Nothing left to read"), also=["C18"])
+mut("m18-revert-d10-stl-readfull-drops-error", "C18", "a read error returned together with the last bytes of an STL block, after which the stream just ends",
+    ("stl.go", "	for n < c && err == nil {\n		var m int\n		m, err = i.Read(o[n:])\n		n += m\n	}", "	if n, err = io.ReadFull(i, o); err == io.ErrUnexpectedEOF {\n		err = io.EOF\n	}"))
 mut("m17-revert-d4-teletext-raw-reader", "C17", "first read of a transport stream shorter than 193 bytes",
     ("teletext.go", "	var dmx = astits.NewDemuxer(context.Background(), rd)", "	_ = rd\n	var dmx = astits.NewDemuxer(context.Background(), r)"))
 mut("m17-bom-detected-with-one-raw-read", "C17", "a split inside the 3-byte BOM",
